@@ -251,15 +251,31 @@ func RuleE3ii(c *Ctx) {
 		}
 		ast.Inspect(fd.Body, func(x ast.Node) bool {
 			ifs, ok := x.(*ast.IfStmt)
-			if !ok || ifs.Init == nil {
-				return true
-			}
-			as, ok := ifs.Init.(*ast.AssignStmt)
-			if !ok || len(as.Lhs) != 2 || len(as.Rhs) != 1 {
-				return true
-			}
-			ix, ok := ast.Unparen(as.Rhs[0]).(*ast.IndexExpr)
 			if !ok {
+				return true
+			}
+			// a conjunct `!ok` of the condition, ok coming from a lookup in a run-wide set
+			var okId *ast.Ident
+			var ix *ast.IndexExpr
+			var conj func(e ast.Expr)
+			conj = func(e ast.Expr) {
+				e = ast.Unparen(e)
+				if be, isBe := e.(*ast.BinaryExpr); isBe && be.Op.String() == "&&" {
+					conj(be.X)
+					conj(be.Y)
+					return
+				}
+				if u, isU := e.(*ast.UnaryExpr); isU && u.Op.String() == "!" {
+					if id, isId := ast.Unparen(u.X).(*ast.Ident); isId {
+						if m, k, found := mapLookupOf(info, cf, id); found {
+							okId = id
+							ix = &ast.IndexExpr{X: m, Index: k}
+						}
+					}
+				}
+			}
+			conj(ifs.Cond)
+			if okId == nil {
 				return true
 			}
 			// run-wide set: a map field of JApiCore
@@ -269,11 +285,6 @@ func RuleE3ii(c *Ctx) {
 			}
 			fld, ok := info.ObjectOf(sel.Sel).(*types.Var)
 			if !ok || coreT == nil || !fieldOwner(coreT, fld) {
-				return true
-			}
-			// condition !ok
-			u, ok := ast.Unparen(ifs.Cond).(*ast.UnaryExpr)
-			if !ok || u.Op.String() != "!" {
 				return true
 			}
 			// calls inside the guarded block
@@ -308,6 +319,65 @@ func RuleE3ii(c *Ctx) {
 					}
 				}
 				_ = cf
+				// VB1: what the guarded call prepares (its first argument) is read afterwards only
+				// on paths where the key was already marked or the call has just run
+				if len(call.Args) > 0 {
+					prep := call.Args[0]
+					ast.Inspect(fd.Body, func(z ast.Node) bool {
+						var loop ast.Node
+						switch l := z.(type) {
+						case *ast.ForStmt:
+							loop = l
+						case *ast.RangeStmt:
+							loop = l
+						}
+						if loop == nil || loop.Pos() < ifs.End() {
+							return true
+						}
+						uses := false
+						ast.Inspect(loop, func(w ast.Node) bool {
+							if e, isE := w.(ast.Expr); isE && cfgx.SameExpr(info, e, prep) {
+								uses = true
+							}
+							return !uses
+						})
+						if !uses {
+							return true
+						}
+						vkey := fmt.Sprintf("VB1:%s:%s", c.P.DeclName(fd), types.ExprString(prep))
+						gen := func(fa cfgx.Fact) bool {
+							id, isId := ast.Unparen(fa.Expr).(*ast.Ident)
+							return isId && info.ObjectOf(id) == info.ObjectOf(okId) && fa.Truth
+						}
+						genStmt := func(nd ast.Node) bool {
+							found := false
+							ast.Inspect(nd, func(q ast.Node) bool {
+								if q == ast.Node(call) {
+									found = true
+								}
+								return !found
+							})
+							return found
+						}
+						var at ast.Node = loop
+						switch l := loop.(type) {
+						case *ast.ForStmt:
+							if l.Init != nil {
+								at = l.Init
+							} else if l.Cond != nil {
+								at = l.Cond
+							}
+						case *ast.RangeStmt:
+							at = l.X
+						}
+						if cf.MustAt(at, gen, genStmt, nil) {
+							sc.Holds(vkey, c.P.Pos(loop.Pos()), "read only after it was prepared (already marked, or the guarded call just ran)")
+						} else {
+							sc.Violation(vkey, c.P.Pos(loop.Pos()), fmt.Sprintf("%s is read here although on some path it was neither marked as processed nor processed: whether its own inheritance has been applied depends on which declaration was handled first", types.ExprString(prep)))
+						}
+						return true
+					})
+				}
 				if len(bad) == 0 {
 					sc.Holds(key, c.P.Pos(call.Pos()), "no caller-owned accumulator crosses the memo")
 				} else {
